@@ -64,7 +64,17 @@ func checkC08(c *Ctx) {
 		if ds.Via != nil {
 			pathTarget = ds.Via // evaluated up to the handler's call of the helper that contains the add
 		}
-		w := c08UnverifiedMsgSigPath(fl, ort, pathTarget)
+		w := c08UnverifiedMsgSigPath(fl, ort, pathTarget, "p1")
+		if w != "" && ds.Via != nil {
+			// the add sits in the helper the handler hands the timeout to: the path continues there
+			if cal := ds.Via.Common().StaticCallee(); cal != nil && ds.Site.Parent() == cal {
+				for i, a := range ds.Via.Common().Args {
+					if ak := fl.K.Key(a); ak == "p1" || ak == "*&[p1]" {
+						w = c08UnverifiedMsgSigPath(NewFlow(p, cal), cal, ds.Site, "p"+itoa(i))
+					}
+				}
+			}
+		}
 		c.Check(w == "", "C08.8", "OnRemoteTimeout: MsgSignature verified before it can be combined", p.Pos(s.Pos()),
 			"every path to add on which aggregate QCs may be enabled passes auth.Verify(timeout.MsgSignature, timeout.ToBytes()) == nil",
 			"path to add with aggregate QCs possibly enabled and timeout.MsgSignature never verified ("+w+"): CreateAggregateQC combines it unverified, one bad or absent message signature voids TC and AggQC together")
@@ -406,7 +416,7 @@ func signerBound(c *Ctx, facts FactSet, sigKey, idKey string) bool {
 // c08UnverifiedMsgSigPath searches for a CFG path from the entry of OnRemoteTimeout to
 // the add call that takes neither the "HasAggregateQC() is false" edge nor the
 // "Verify(timeout.MsgSignature, timeout.ToBytes()) == nil" edge.
-func c08UnverifiedMsgSigPath(fl *Flow, fn *ssa.Function, addCall ssa.CallInstruction) string {
+func c08UnverifiedMsgSigPath(fl *Flow, fn *ssa.Function, addCall ssa.CallInstruction, tmo string) string {
 	closes := func(fs []Fact) bool {
 		for _, f := range fs {
 			if f.Op == "false" && strings.HasPrefix(f.L, kHasAggQC) {
@@ -414,7 +424,7 @@ func c08UnverifiedMsgSigPath(fl *Flow, fn *ssa.Function, addCall ssa.CallInstruc
 			}
 			if f.Op == "==" && oneIsNil(f) {
 				k := nonNil(f)
-				if strings.HasPrefix(k, kBaseVer) && strings.Contains(k, ", p1."+kTOMsg+"MsgSignature, (hs.TimeoutMsg).ToBytes(p1)") {
+				if strings.HasPrefix(k, kBaseVer) && strings.Contains(k, ", "+tmo+"."+kTOMsg+"MsgSignature, (hs.TimeoutMsg).ToBytes("+tmo+")") {
 					return true
 				}
 			}
@@ -655,10 +665,29 @@ func c08Builders(c *Ctx) {
 				return
 			}
 			args := call.Call.Args
-			if x.name == "CreateTimeoutCert" && len(args) == 2 && fl.K.Key(args[0]) == fl.K.Key(combine)+"#0" && fl.K.Key(args[1]) == "p1" {
+			// the signature handed to the constructor is the Combine result (a variable that stays nil for view 0,
+			// where nothing is signed, is the same thing as the early return of an unsigned certificate)
+			isCombined := func(v ssa.Value) bool {
+				if fl.K.Key(v) == fl.K.Key(combine)+"#0" {
+					return true
+				}
+				lvs := leaves(fl, v, call)
+				some := false
+				for _, lf := range lvs {
+					switch {
+					case lf.KeyIn(fl) == fl.K.Key(combine)+"#0":
+						some = true
+					case isNilConst(lf.Val) && lf.Facts[eqFact("c:0", "p1")]:
+					default:
+						return false
+					}
+				}
+				return some
+			}
+			if x.name == "CreateTimeoutCert" && len(args) == 2 && isCombined(args[0]) && fl.K.Key(args[1]) == "p1" {
 				labelOK = true
 			}
-			if x.name == "CreateAggregateQC" && len(args) == 3 && fl.K.Key(args[1]) == fl.K.Key(combine)+"#0" && fl.K.Key(args[2]) == "p1" {
+			if x.name == "CreateAggregateQC" && len(args) == 3 && isCombined(args[1]) && fl.K.Key(args[2]) == "p1" {
 				labelOK = true
 			}
 		})
